@@ -102,7 +102,13 @@ def detect(ids, props, tier):
             rc, st = sh(["git", "-C", DREPO, "status", "--short"])
             if st.strip():
                 raise SystemExit(DREPO + " is dirty: " + st)
-        ps = props or [re.search(r"C\d\d", i).group(0)]
+        mm = re.search(r"C\d\d", i)
+        if props:
+            ps = props
+        elif mm:
+            ps = [mm.group(0)]
+        else:
+            ps = [json.load(open(os.path.join(d, "meta.json")))["breaks_property"]]
         r = {"id": i, "results": {}}
         rc, out = sh(["git", "apply", os.path.join(d, "patch.diff")], cwd=DREPO)
         if rc != 0:
